@@ -156,7 +156,8 @@ let parse_hop (f : string array) : M.hop =
   | "lsv" ->
     let d = if f.(5) = "-" then None else (match bytes_of_hex f.(5) with [c] -> Some c | _ -> failwith "multi-byte delimiter") in
     M.HListVersions (h 3, h 4, d, h 6, h 7, z_of_int (int_of_string f.(8)))
-  | "cput" -> M.HChunkedPut (h 3, h 4, h 5, sched_of f.(6), bool_of_field f.(7), z_of_int (int_of_string f.(8)), h 9)
+  | "cput" -> M.HChunkedPut (h 3, h 4, h 5, sched_of f.(6), bool_of_field f.(7), z_of_int (int_of_string f.(8)), h 9,
+                              (if Array.length f > 10 && f.(10) <> "=>" then List.map pair_of (split_on ',' f.(10)) else []))
   | "lsu" ->
     let d = if f.(5) = "-" then None else (match bytes_of_hex f.(5) with [c] -> Some c | _ -> failwith "multi-byte delimiter") in
     M.HListUploads (h 3, h 4, d, h 6, h 7, z_of_int (int_of_string f.(8)))
@@ -265,6 +266,9 @@ let c12 lineno (f : string array) =
 
 (* c16 X name mode bases host path lbucket lkey same rbuckets rkeys desc *)
 let c16 lineno (f : string array) =
+  if f.(1) = "GOOD" then print_string "OK\n"
+  else if f.(1) = "BAD" then Printf.printf "FAIL\t%d\tmodel=-\tspec=%s\n" lineno (String.map (fun c -> if c = ' ' || c = '\t' then '-' else c) (raw_of_hex f.(2)))
+  else
   let bases = List.map bytes_of_hex (split_on ',' f.(4)) in
   let mode = (match f.(3) with "none" -> M.HostNone | "host" -> M.HostBucket | _ -> M.HostBases bases) in
   let host = bytes_of_hex f.(5) and path = bytes_of_hex f.(6) and lb = bytes_of_hex f.(7) and lk = bytes_of_hex f.(8) in
